@@ -133,7 +133,7 @@ macro_rules! text_impl {
     };
 }
 
-fn slice_val(ptr: usize, len: usize) -> Val {
+pub fn slice_val(ptr: usize, len: usize) -> Val {
     let (base, sz) = BASE.with(|b| *b.borrow());
     let off = (ptr.wrapping_sub(base)) / sz;
     Val::Sl(off, off + len)
